@@ -1956,3 +1956,14 @@ PROPS["C12"]["level_text"] += (" Typed items are read with the full depth budget
     "the typed stream with the deserializer's remaining_depth counter kept from one next() to the next): c14_typed_stream_depth_restored (same items and "
     "offsets as Model.StreamTyped.historyT; counter 128 after every yielding call, 127 after a RecursionLimitExceeded item) and c12_typed_items_full_budget "
     "(before every call the stream has failed or the counter stands at 128).")
+DEPTH_STREAM_RULE = (" Tags depth:<family>:<layer kind>:<shape> (stypes::run_depth, op tstream; C12 in d / fr, C14 in d / ud): streams of 2-42 items of ONE schema "
+                     "nesting to different depths around the recursion limit - Option-interleaved / bare / Value-leaf / exact-height / wide towers of the ten layer "
+                     "kinds of typed::layer and their rotation, shapes [127,127,127], [126,127,128,127], [1,127,2,127], [128,127], [129,127,127], 40 shallow items then "
+                     "127,128, an item failing at depth ~120 for another reason (tx, -x, trailing comma, mistyped leaf) between two 127-deep ones, 130 siblings then the "
+                     "deepest; 678 cases per configuration (thorough 1455). The model reads every item with the whole budget (c12_typed_items_full_budget), so a "
+                     "check_recursion! exit skipped on an Ok path shows as a later item failing with RecursionLimitExceeded (mutation: deserialize_enum's `{` arm without its "
+                     "`+= 1` - 138 disagreements per configuration, the only C12 cases that see it). Under C14 op tstream reports model disagreements only (its "
+                     "specification messages are C12's). A skipped increment on Err paths only is unobservable here: the stream is fused after any error, and the "
+                     "universal seed has no error-swallowing visitor (the model-level statement is c14_typed_depth_restored).")
+PROPS["C12"]["rule"] += DEPTH_STREAM_RULE
+PROPS["C14"]["rule"] += DEPTH_STREAM_RULE
